@@ -55,6 +55,7 @@ WHAT = {
  'only equal to a Literal case': ("C02", "dump(Decimal(200), Union[Literal[200, 300], Decimal]) -> Decimal('200') instead of '200' (membership by ==; also Fraction(1), an IntEnum member, 1.0); Decimal('sNaN') -> InvalidOperation (dump_union_literal_lit_dec di=5 / di=10; reported by a seed agent on the clean tree)"),
  'renamed members whose value equals a name key': ("C18", "enum_by_name(SE, map={'b': 'bee'}) with class SE(str, Enum): a = 'b'; b = 'c': both members dumped as 'bee', load(dump(SE.a)) is SE.b (member looked up in map by ==/hash) (enum_rt_ECross_name_map_cross mi=0; reported by a seed agent on the clean tree)"),
  "inherited __orig_bases__": ("C16", "class Mid(Root[int], Generic[T]): x: List[T]; class Child(Mid): pass -> load({'x': 1}, Child) accepted, {'x': ['a']} rejected (grandparent's binding replaced the overriding annotation); class Child(Root) with Root bare -> no loader (x stays ~T) (case_OBPlainChild, case_OBBareChild, case_OBBoundChild, creation; reported by a seed agent on the clean tree)"),
+ 'defaults that have no source form': ("C08", "model with a default 10**5000 (also [10**5000], (1, 10**5000)): loader creation raised ValueError (int -> str conversion limit) from get_literal_expr; self-referential / 3000-deep list default: RecursionError (lit_unrenderable i=0..7; reported by a seed agent on the clean tree)"),
 }
 WHAT.update(json.load(open('/verif/tools/fixed_extra.json')) if __import__('os').path.exists('/verif/tools/fixed_extra.json') else {})
 log = subprocess.run(["git", "-C", "/repo", "log", "--format=%h %s"], capture_output=True, text=True).stdout.splitlines()
